@@ -177,6 +177,44 @@ theorem in_range_unless_accept_any (s : Sock) (ver : Nat) (e r y : UInt32)
     exact ⟨a, b, c⟩
   · exact hs
 
+theorem eodIntervals_mode (s : Sock) (ver : Nat) (e r y : UInt32) :
+    (eodIntervals s ver e r y).1.ivMode = s.ivMode := by
+  rw [eodIntervals_eq]
+  split <;> rfl
+
+/-- **whatever the cache sends, for the whole life of the socket**: starting in range (as `rtr_init`
+    leaves it), after any sequence of End-of-Data PDUs (any versions, any 32-bit values) and mode
+    changes that never configure ACCEPT_ANY, the three timers are in range. -/
+theorem history_in_range (h : List HEv) :
+    ∀ (s : Sock), s.InRange → s.ivMode ≠ Gen.RTR_INTERVAL_MODE_ACCEPT_ANY →
+      (∀ ev ∈ h, ev ≠ .setMode Gen.RTR_INTERVAL_MODE_ACCEPT_ANY) →
+      (runHistory s h).InRange ∧ (runHistory s h).ivMode ≠ Gen.RTR_INTERVAL_MODE_ACCEPT_ANY := by
+  induction h with
+  | nil => intro s hs hm _; exact ⟨hs, hm⟩
+  | cons ev rest ih =>
+    intro s hs hm hno
+    have hrest : ∀ ev' ∈ rest, ev' ≠ .setMode Gen.RTR_INTERVAL_MODE_ACCEPT_ANY :=
+      fun ev' h' => hno ev' (List.mem_cons_of_mem _ h')
+    have hev := hno ev (List.mem_cons_self ..)
+    unfold runHistory
+    rw [List.foldl_cons]
+    cases ev with
+    | eod ver e r y =>
+      exact ih _ (in_range_unless_accept_any s ver e r y hs hm) (by show (eodIntervals s ver e r y).1.ivMode ≠ _; rw [eodIntervals_mode]; exact hm) hrest
+    | setMode o =>
+      have ho : o ≠ Gen.RTR_INTERVAL_MODE_ACCEPT_ANY := fun c => hev (by rw [c])
+      refine ih _ ?_ ?_ hrest
+      · show (setIntervalMode s o).InRange
+        unfold setIntervalMode
+        split
+        · exact hs
+        · exact hs
+      · show (setIntervalMode s o).ivMode ≠ _
+        unfold setIntervalMode
+        split
+        · exact ho
+        · exact hm
+
 /-- the exception is real: in ACCEPT_ANY mode a cache can push the refresh interval to 0 and the
     expire interval to 2^32-1 -/
 theorem accept_any_leaves_range :
